@@ -5,3 +5,4 @@ pub mod c15;
 pub mod c13;
 pub mod c14;
 pub mod c01;
+pub mod c08;
